@@ -155,3 +155,8 @@ CORPUS += [
     V("C18", "mtvrp-window-start-column-is-the-end", _MG, "torch.cat((torch.zeros(batch_size, 1), tw_start), -1),  # start", "torch.cat((torch.zeros(batch_size, 1), tw_end), -1),  # start", "C18.r"),
     V("C18", "eq-mtvrp-window-end-commuted", _MG, "        tw_end = tw_start + tw_length", "        tw_end = tw_length + tw_start", None),
 ]
+
+CORPUS += [
+    V("C18", "mtvrp-demand-lower-bound-shifted-up", _MG, ".uniform_(self.min_demand - 1, self.max_demand - 1)", ".uniform_(self.min_demand + 1, self.max_demand - 1)", "C18.g"),
+    V("C18", "mtvrp-backhaul-upper-bound-of-the-linehauls", _MG, ".uniform_(self.min_backhaul - 1, self.max_backhaul - 1)", ".uniform_(self.min_backhaul - 1, self.max_demand - 1)", "C18.g"),
+]
